@@ -143,6 +143,25 @@ pub fn verif_collect_slice<T: SimpleDataType, A>(this: &SimpleGarnishData<T, A>,
 pub fn verif_skip_take(v: &Vec<usize>, skip: usize, take: usize, items: &mut Vec<usize>)
 { unimplemented!() }
 
+/// One call of a host hook stored in the data object (a function pointer, opaque to Verus - rule R8): `host_resolve_call(f, pre,
+/// symbol, post, r)` reads "calling the pointer `f` with (`pre`, `symbol`) leaves the object as `post` and answers `r`". Uninterpreted:
+/// nothing is assumed about what a host function does, only that the stand-ins below perform exactly one such call.
+pub uninterp spec fn host_resolve_call<T: SimpleDataType, A>(f: VerifHostFn, pre: SimpleGarnishData<T, A>, symbol: u64, post: SimpleGarnishData<T, A>, r: Result<bool, DataError>) -> bool;
+pub uninterp spec fn host_op_call<T: SimpleDataType, A>(f: VerifHostFn, pre: SimpleGarnishData<T, A>, op: Instruction, left: (GarnishDataType, usize), right: (GarnishDataType, usize), post: SimpleGarnishData<T, A>, r: Result<bool, DataError>) -> bool;
+
+/// Stands for the expression `(self.resolver)(self, symbol)` (a call through a function-pointer field; rule R8). Assumed: it is one
+/// call of the installed pointer with the object as it is and exactly these arguments.
+#[verifier::external_body]
+pub fn verif_call_resolver<T: SimpleDataType, A>(this: &mut SimpleGarnishData<T, A>, symbol: u64) -> (r: Result<bool, DataError>)
+    ensures host_resolve_call(old(this).resolver, *old(this), symbol, *final(this), r)
+{ unimplemented!() }
+
+/// Stands for the expression `(self.op_handler)(self, operation, left, right)` (rule R8), assumed as above.
+#[verifier::external_body]
+pub fn verif_call_op_handler<T: SimpleDataType, A>(this: &mut SimpleGarnishData<T, A>, operation: Instruction, left: (GarnishDataType, usize), right: (GarnishDataType, usize)) -> (r: Result<bool, DataError>)
+    ensures host_op_call(old(this).op_handler, *old(this), operation, left, right, *final(this), r)
+{ unimplemented!() }
+
 /// the extents select a whole sequence: `start` is `zero()` and `end` is `max_value()` (what equality and the casts pass)
 pub uninterp spec fn selects_everything(e: VerifExtents) -> bool;
 /// stands for `Extents<SimpleNumber>` (traits/src/data.rs; its bounds need PartialOrd/Debug impls the extract does not carry) - rule R8
